@@ -2,6 +2,7 @@
 # Runs every registered quick check on the current tree and validates the evidence files.
 cd "$(dirname "$0")"
 tier=${1:-quick}
+mkdir -p build
 ids=$(python3 -c "
 import json
 print(' '.join(c['property_id'] for c in json.load(open('MANIFEST.json'))['checks']))")
